@@ -242,6 +242,39 @@ def main():
                            ["secsi split " + " ".join(str(v) for v in vals) + " " + hexs(body)],
                            ["ok " + ";".join(show_block(b) for b in blocks)])
 
+    # ------------------------------------------------------------ glue: the byte queue the SECS-I receive path reads blocks from
+    # `SecsIProtocol._process_received_data` takes a block with `ByteQueue.wait_for(length + 3)`: whatever the chunking of the line,
+    # it must get exactly that many bytes, the block's bytes, in order (a short read truncates the block: no ACK/NAK, message lost).
+    import threading
+    import time as _time
+    from secsgem.common.byte_queue import ByteQueue
+    for i in range(12 if big else 5):
+        n = rng.choice([13, 14, 60, 257])
+        payload = rng.bytes(n)
+        cuts = sorted({rng.range(1, n - 1) for _ in range(rng.range(2, 4))})
+        frags = [payload[a:b] for a, b in zip([0] + cuts, cuts + [n])]
+        q = ByteQueue()
+        out = {}
+
+        def reader(q=q, n=n, out=out):
+            try:
+                out["v"] = bytes(q.wait_for(n))
+            except Exception as exc:  # noqa: BLE001
+                out["e"] = hlib.errkind(exc)
+        t = threading.Thread(target=reader, daemon=True)
+        t.start()
+        for fr in frags:
+            # feed each further fragment only once the reader sleeps on the queue's condition again (the adverse schedule)
+            t_end = _time.time() + 0.3
+            while _time.time() < t_end and not q._buffer_lock._waiters:
+                _time.sleep(0.001)
+            q.append(fr)
+        t.join(3)
+        res.count(("bytequeue", n, tuple(cuts)), sample={"op": "ByteQueue.wait_for across fragments", "n": n, "cuts": cuts} if i < 1 else None)
+        if t.is_alive() or out.get("v") != payload:
+            res.violate("bytequeue-short-read", "ByteQueue.wait_for(n) did not return exactly the n bytes when they arrived in several fragments",
+                        {"n": n, "cuts": cuts}, n, ("blocked" if t.is_alive() else out.get("e", len(out.get("v", b"")))))
+
     # ------------------------------------------------------------ D. reassembly
     cases, lines, answers = [], [], []
     for i in range(400 if big else 80):
